@@ -66,6 +66,9 @@ def main(c):
                 ("Query.tla", "Query_serial.cfg", 1, False), ("Query.tla", "Query_fixed.cfg", 2, False),
                 ("Query.tla", "Query_found.cfg", 1, True), ("Query.tla", "Query_found_never.cfg", 1, True),
                 ("Query.tla", "Query_serial_never.cfg", 1, True),
+                # the clipboard hand-off (a rendezvous with the caller's own deadline): an offer that gives up lets input go
+                # on and Close return whenever the reply comes; an offer that waits for the quit channel wedges both
+                ("Rendezvous.tla", "Rendezvous_fixed.cfg", 1, False), ("Rendezvous.tla", "Rendezvous_blocking.cfg", 1, True),
                 # Suspend beside an input goroutine that posts to a full queue: released and waited for, nothing outlives
                 # Suspend (also when the input goroutine shuts down itself); as found it does; waiting for oneself deadlocks
                 ("SuspendLeave.tla", "SuspendLeave_fixed_main.cfg", 1, False), ("SuspendLeave.tla", "SuspendLeave_fixed_signal.cfg", 1, False),
@@ -79,6 +82,7 @@ def main(c):
         c.cov["resize_flag_as_found_refuted"] = not ok["ResizeFlag_found.cfg"]
         c.cov["query_handoff_as_found_models_deadlock"] = sum(
             1 for cfg in ("Query_found.cfg", "Query_found_never.cfg", "Query_serial_never.cfg") if not ok[cfg])
+        c.cov["clipboard_rendezvous_blocking_offer_refuted"] = not ok["Rendezvous_blocking.cfg"]
         c.cov["suspend_leave_as_found_and_selfwait_refuted"] = sum(
             1 for cfg in ("SuspendLeave_found.cfg", "SuspendLeave_selfwait.cfg") if not ok[cfg])
     td = c.drive(drv, "c10", replay=c.replay)
@@ -106,7 +110,7 @@ def main(c):
              "posters (PostEvent/PostEventBlocking/SyncFunc/Resize) x queries from another goroutine x frames rendered meanwhile x "
              "lone ESC 0-13 ms before the end x end (Close, Close twice, Suspend+Close, Suspend+Resume+Close, Close from a second "
              "goroutine); plus query scenarios: 1-4 goroutines x calls of QueryColor(distinct indexes)/QueryForeground/QueryBackground/"
-             "CursorPosition/ClipboardPop x replies on time / 1-7 ms late / never / while the input is shut down / after Resume x 0-3 "
+             "CursorPosition/ClipboardPop x replies on time / 1-7 ms late / after the caller gave up (clipboard) / never / while the input is shut down / after Resume x 0-3 "
              "Suspend+Resume cycles meanwhile x end; plus widgets/spinner scenarios (run, stop queued, stopped, Start/Stop/Toggle from "
              "3 goroutines, across Suspend+Resume) then Close; plus Suspend beside a full event queue: queue 1/2/4 x input the "
              "input goroutine has to post (paste start, keys, focus, mouse) x Suspend+Close / Suspend+Resume+more input+late or no "
